@@ -6,6 +6,7 @@
 //   newlabel | newsection | opts <hex> | extra <sig>:<id> | icomment <tok> | inst <id> <o0> .. <o5>
 //   bind L<n> | align <mode> <n> | embed <hex> | data <typeid> <items> <repeat> <hex> | elabel L<n> <size>
 //   edelta L<n> L<m> <size> | comment <tok> | section S<n> | cpool L<n> <itemsize> <hex>
+//   gconst <itemsize> <hex>   (emitter compiler: constant into the GLOBAL pool)   | cpoolnode L<n> <align> <hex>   (asm: a ConstPoolNode replayed)
 // Node-list editing (builder/compiler; nodes are named by creation ordinal, n0 = the initial section node):
 //   cursor <n|-> | remove <n> | removerange <a> <b> | addnode <n> | addafter <n> <ref> | addbefore <n> <ref>
 // finalize:
@@ -174,6 +175,9 @@ struct Prog {
   std::map<BaseNode*, size_t> ord;
   std::vector<std::string> keep;   // inline comment strings must outlive the call
   std::vector<std::vector<uint8_t>> pools;
+  BaseCompiler* comp = nullptr;    // non-null for emitter `compiler`: `gconst` adds to its global constant pool
+  uint64_t gpool_isz = 0;          // item size of the global pool (all items of one program have one size)
+  BaseNode* gpool_node = nullptr;  // the pending global ConstPoolNode: GlobalConstPoolPass links it - the user must not (precondition)
   // emitter `compilerfn`: a Compiler with function nodes (physical registers only); no node-list dump, the code is compared with an
   // Assembler that is given bind(func) + emit_prolog(frame) + the same calls + bind(exit) + emit_epilog(frame)
   bool fn_mode = false;
@@ -405,7 +409,14 @@ static std::string do_call(BaseEmitter* e, const std::vector<std::string>& w, bo
     err = e->_emit(InstId(v), o[0], o[1], o[2], o + 3);
     return err_str(err);
   }
-  if (k == "bind" && w.size() == 2 && parse_label(w[1], a)) { Label l; l.set_id(a); return err_str(e->bind(l)); }
+  if (k == "bind" && w.size() == 2 && parse_label(w[1], a)) {
+    Label l; l.set_id(a);
+    if (P->bb && a < P->code.label_count()) {     // a ConstPoolNode is linked by GlobalConstPoolPass, not by bind (precondition)
+      LabelNode* ln = nullptr;
+      if (P->bb->label_node_of(Out(ln), l) == Error::kOk && ln && ln->is_const_pool()) { pre = true; return "pre"; }
+    }
+    return err_str(e->bind(l));
+  }
   if (k == "align" && w.size() == 3 && vh::parse_u64(w[1], v) && vh::parse_u64(w[2], v2)) return err_str(e->align(AlignMode(uint8_t(v)), uint32_t(v2)));
   if (k == "embed" && w.size() == 2) {
     std::vector<uint8_t> d; if (!vh::hex_to_bytes(w[1], d)) { pre = true; return "pre"; }
@@ -430,6 +441,30 @@ static std::string do_call(BaseEmitter* e, const std::vector<std::string>& w, bo
     return err_str(e->section(P->code.section_by_id(uint32_t(v))));
   }
   if (k == "cpool" && w.size() == 4 && parse_label(w[1], a) && vh::parse_u64(w[2], v)) {
+    std::vector<uint8_t> d; if (!vh::hex_to_bytes(w[3], d) || (v != 1 && v != 2 && v != 4 && v != 8 && v != 16) || d.size() % v) { pre = true; return "pre"; }
+    Arena arena(4096);
+    ConstPool pool(arena);
+    for (size_t i = 0; i < d.size(); i += v) { size_t off; if (pool.add(d.data() + i, size_t(v), Out(off)) != Error::kOk) return "err cpooladd"; }
+    Label l; l.set_id(a);
+    return err_str(e->embed_const_pool(l, pool));
+  }
+  // Compiler only: one constant (size 1/2/4/8/16, all constants of a program the same size) added to the GLOBAL constant pool
+  // (BaseCompiler::_new_const); the pool node is created by the first one and linked by GlobalConstPoolPass at finalize
+  if (k == "gconst" && w.size() == 3 && vh::parse_u64(w[1], v)) {
+    std::vector<uint8_t> d;
+    if (!P->comp || !vh::hex_to_bytes(w[2], d) || (v != 1 && v != 2 && v != 4 && v != 8 && v != 16) || d.size() != v ||
+        (P->gpool_isz && P->gpool_isz != v)) { pre = true; return "pre"; }
+    P->gpool_isz = v;
+    BaseMem m;
+    err = P->comp->_new_const(Out(m), ConstPoolScope::kGlobal, d.data(), d.size());
+    if (err == Error::kOk) {
+      LabelNode* n = nullptr; Label l; l.set_id(m.base_id());
+      if (P->bb->label_node_of(Out(n), l) == Error::kOk) { reg_node(n); P->gpool_node = n; }
+    }
+    return err_str(err);
+  }
+  // asm mode: what serialize_to issues for a ConstPoolNode - embed_const_pool(label, pool of items of size `align`)
+  if (k == "cpoolnode" && w.size() == 4 && parse_label(w[1], a) && vh::parse_u64(w[2], v)) {
     std::vector<uint8_t> d; if (!vh::hex_to_bytes(w[3], d) || (v != 1 && v != 2 && v != 4 && v != 8 && v != 16) || d.size() % v) { pre = true; return "pre"; }
     Arena arena(4096);
     ConstPool pool(arena);
@@ -466,12 +501,12 @@ static std::string do_edit(const std::vector<std::string>& w) {
   }
   if (k == "addnode" && w.size() == 2) {
     BaseNode* n = node_arg(w[1]);
-    if (!n || n->is_active()) return "pre";
+    if (!n || n->is_active() || n == P->gpool_node) return "pre";
     bb->add_node(n); return "ok";
   }
   if ((k == "addafter" || k == "addbefore") && w.size() == 3) {
     BaseNode* n = node_arg(w[1]); BaseNode* r = node_arg(w[2]);
-    if (!n || !r || n->is_active() || !r->is_active()) return "pre";
+    if (!n || !r || n->is_active() || !r->is_active() || n == P->gpool_node) return "pre";
     if (k == "addafter") bb->add_after(n, r); else bb->add_before(n, r);
     return "ok";
   }
@@ -500,7 +535,7 @@ static void step(const std::string& line, std::vector<std::string>& out) {
       return;
     }
     if (w[2] == "asm") { P->is_asm = true; if (a64) P->em.reset(new a64::Assembler()); else P->em.reset(new x86::Assembler()); }
-    else if (w[2] == "compiler") { if (a64) { auto* c = new a64::Compiler(); P->em.reset(c); P->bb = c; } else { auto* c = new x86::Compiler(); P->em.reset(c); P->bb = c; } }
+    else if (w[2] == "compiler") { if (a64) { auto* c = new a64::Compiler(); P->em.reset(c); P->bb = c; P->comp = c; } else { auto* c = new x86::Compiler(); P->em.reset(c); P->bb = c; P->comp = c; } }
     else { if (a64) { auto* c = new a64::Builder(); P->em.reset(c); P->bb = c; } else { auto* c = new x86::Builder(); P->em.reset(c); P->bb = c; } }
     Error err = P->code.attach(P->em.get());
     P->em->add_encoding_options(EncodingOptions(uint32_t(enc)));
@@ -597,6 +632,11 @@ static void step(const std::string& line, std::vector<std::string>& out) {
     size_t guard = 0;
     for (BaseNode* n = P->bb->first_node(); n && guard <= 100000; n = n->next()) guard++;
     if (guard > 100000) { out.push_back("C end CYCLE"); out.push_back("F CYCLE"); return; }
+    // the passes first (Compiler: GlobalConstPoolPass links the global pool behind the last node; the register allocator has no
+    // function to work on), so that the list and the calls shown are what finalize() serialises; finalize() runs them again (no-ops)
+    Error e0 = P->bb->run_passes();
+    sweep_new_nodes();
+    out.push_back("R " + err_str(e0) + state_str());
     Recorder rec;
     Error e1 = Error::kOk;
     e1 = P->bb->serialize_to(&rec);
